@@ -84,6 +84,29 @@ end Zrnt.Proofs.GossipLemmas
 namespace Zrnt.Proofs.GossipLemmas
 open Zrnt Zrnt.Gossip
 
+theorem finCheck_some {b : Bool} {f : Tri} {fe te : UInt64} {q : List String} {o : Out}
+    (h : finCheck b f fe te q = some o) : o = ign q := by
+  unfold finCheck at h
+  split at h
+  · split at h <;> simp_all
+  · split at h <;> simp_all
+
+theorem finCheck_none_iff (b : Bool) (f : Tri) (fe te : UInt64) (q : List String) :
+    finCheck b f fe te q = none ↔ ((b = false ∧ f = .yes) ∨ (b = true ∧ fe.toNat ≤ te.toNat)) := by
+  unfold finCheck
+  cases b <;> cases f <;> simp [UInt64.lt_iff_toNat_lt, Nat.not_lt]
+
+theorem finCheck_some_cond {b : Bool} {f : Tri} {fe te : UInt64} {q : List String} {o : Out}
+    (h : finCheck b f fe te q = some o) : ¬ ((b = false ∧ f = .yes) ∨ (b = true ∧ fe.toNat ≤ te.toNat)) := by
+  intro hc
+  rw [(finCheck_none_iff b f fe te q).mpr hc] at h
+  cases h
+
+theorem div_mono_not_lt (a b s : Nat) : a < b → ¬ (b / s < a / s) := by
+  intro hlt hgt
+  have := Nat.div_le_div_right (c := s) (Nat.le_of_lt hlt)
+  omega
+
 /-- normal form for the C12 case analyses: unfold verdict constructors and the condition-list combinators,
 turn every `UInt64` comparison into a `Nat` comparison -/
 macro "gossip_norm" : tactic => `(tactic|
